@@ -32,6 +32,7 @@ type SpecEnv struct {
 	old    *State
 	locals func(name string) (specVal, bool)
 	where  string
+	macroDepth int
 }
 
 type specErr string
@@ -658,6 +659,31 @@ func (env *SpecEnv) callSpec(sf *SpecFunc, args []specVal) specVal {
 	}
 	if len(args) != len(sf.Params) {
 		env.fail("spec function %s: want %d args, got %d", sf.Name, len(sf.Params), len(args))
+	}
+	if sf.Macro {
+		inner := *env
+		inner.vars = map[string]specVal{}
+		inner.locals = nil
+		inner.pkg = sf.Pkg
+		if sf.Pkg == "" {
+			inner.pkg = env.pkg
+		}
+		for i, p := range sf.Params {
+			pt, err := fx.e.resolveType(inner.pkg, p.Type)
+			if err != nil {
+				env.fail("macro %s: %v", sf.Name, err)
+			}
+			a := args[i]
+			if a.typ == nil {
+				a = specVal{fx.e.zero(pt), pt}
+			}
+			inner.vars[p.Name] = specVal{a.t, pt}
+		}
+		if env.macroDepth > 8 {
+			env.fail("macro %s: expansion too deep", sf.Name)
+		}
+		inner.macroDepth = env.macroDepth + 1
+		return inner.expr(sf.Body)
 	}
 	rt, err := fx.e.resolveType(sf.Pkg, sf.Ret)
 	if err != nil {
